@@ -211,7 +211,12 @@ func (t *Typechecker) VisitBadExpr(expr *ast.BadExpr) ast.VisitResult {
 }
 
 func (t *Typechecker) VisitIdent(expr *ast.Ident) ast.VisitResult {
-	decl, ok, isVar := t.CurrentTable.LookupDecl(expr.Literal.Literal)
+	// use the declaration the resolver bound when the statement was resolved:
+	// the symbol table may have changed since (the declared variable itself was inserted, later declarations of a block)
+	decl, ok, isVar := expr.Declaration, expr.Declaration != nil, expr.Declaration != nil
+	if decl == nil { // not resolved yet (arguments of an alias are evaluated while parsing)
+		decl, ok, isVar = t.CurrentTable.LookupDecl(expr.Literal.Literal)
+	}
 	if !ok || !isVar || decl == nil {
 		t.latestReturnedType = ddptypes.VoidType{}
 	} else {
